@@ -175,7 +175,7 @@ def random_basis_descs(rng, n, qn_mode="none", kinds=None):
 # =====================================================================================
 # trees
 # =====================================================================================
-TREE_SHAPES = ("random", "chain", "star", "caterpillar", "binary")
+TREE_SHAPES = ("random", "chain", "star", "caterpillar", "binary", "bushy")
 
 
 def random_tree_spec(rng, descs, n_dummy=None, max_group=3, shape=None, max_children=4):
@@ -193,11 +193,11 @@ def random_tree_spec(rng, descs, n_dummy=None, max_group=3, shape=None, max_chil
     idx = list(rng.permutation(len(descs)))
     groups = []
     while idx:
-        g = int(rng.integers(1, max_group + 1))
+        g = min(max_group, int(rng.choice([1, 1, 1, 1, 2, 2, 3])))   # mostly single-set nodes
         groups.append([int(i) for i in idx[:g]])
         idx = idx[g:]
     if n_dummy is None:
-        n_dummy = int(rng.choice([0, 0, 1, 1, 2, 3]))
+        n_dummy = int(rng.choice([0, 0, 1, 1, 2, 2, 3, 4]))
     if not groups and n_dummy == 0:
         n_dummy = 1
     descs2 = list(descs)
@@ -208,7 +208,7 @@ def random_tree_spec(rng, descs, n_dummy=None, max_group=3, shape=None, max_chil
     groups = [groups[i] for i in order]
     n = len(groups)
     if shape is None:
-        shape = TREE_SHAPES[int(rng.integers(len(TREE_SHAPES)))]
+        shape = str(rng.choice(TREE_SHAPES, p=[0.3, 0.1, 0.2, 0.1, 0.1, 0.2]))
     parent = [-1] * n
     nchild = [0] * n
     for i in range(1, n):
@@ -220,6 +220,8 @@ def random_tree_spec(rng, descs, n_dummy=None, max_group=3, shape=None, max_chil
             p = i - 1 if i % 2 == 1 else max(i - 2, 0)
         elif shape == "binary":
             p = (i - 1) // 2
+        elif shape == "bushy":
+            p = int(rng.integers(0, min(i, 2)))
         else:
             cand = [j for j in range(i) if nchild[j] < max_children]
             p = int(cand[int(rng.integers(len(cand)))])
